@@ -1283,7 +1283,7 @@ def _second(name):
     return mon
 
 
-for _n in ("C01", "C08", "C13", "C15", "C16"):
+for _n in ("C01", "C08", "C12", "C13", "C15", "C16"):
     MONITORS[_n + "re"] = _second(_n)
 
 
